@@ -2,8 +2,8 @@ package props
 
 import (
 	"fmt"
-	"go/types"
 	"go/token"
+	"go/types"
 	"regexp"
 	"sort"
 	"strings"
